@@ -80,10 +80,10 @@ func (c13) Run(e *simkit.Env, cc any) {
 	for _, g := range r.recv {
 		si := g.id/1000 - 1
 		seq := g.id % 1000
+		seen[g.id]++
 		if si < 0 || si >= len(c.Senders) {
 			continue
 		}
-		seen[g.id]++
 		if seen[g.id] > 1 {
 			e.Fail("C13/duplicate", "message %d of sender %d was delivered twice to receiver %d", seq, si, g.rcv)
 			return
@@ -108,6 +108,14 @@ func (c13) Run(e *simkit.Env, cc any) {
 	if crossMode != "" {
 		e.Fail("C13/out-of-order-across-addressing-modes", "%s", crossMode)
 		return
+	}
+	for _, id := range r.tail {
+		for _, s := range r.sent {
+			if s.id == id && s.err == nil && seen[id] != 1 {
+				e.Fail("C13/lost-after-redial", "a message sent 30 simulated seconds after a pooled link had been cut (the connection stayed up and the link was re-dialled) was accepted and never delivered (pool %d, faults %v)", c.Pool, c.Faults)
+				return
+			}
+		}
 	}
 	if !cut {
 		for _, s := range r.sent {
